@@ -28,6 +28,13 @@ def run(run):
                 run.violation(('spec', res.violated, label), 'FM94 invariant %s violated' % res.violated, tlc.error_trace(res))
             run.add_tlc(res, 'FM94 produce ' + label)
             behs = [b for b in res.iter_emitted()]
+            # non-vacuity: a (template, flags) combination whose every behaviour dies on the way (no legal difference width for a
+            # compressed column, say) leaves nothing to replay - count the templates that never reach the end
+            done_tids = {b['tid'] for b in behs}
+            silent = [t for k, t in enumerate(cat[group]) if k + 1 not in done_tids]
+            run.notes['templates_without_complete_behaviour'] = run.notes.get('templates_without_complete_behaviour', 0) + len(silent)
+            if silent:
+                run.notes.setdefault('first_templates_without_complete_behaviour', []).append({'run': label, 'ids': silent[0]})
             good = [b for b in behs if not b['err']]
             nerr += len(behs) - len(good)
             results = fm94.replay_all(good, ('encode',))
